@@ -365,6 +365,11 @@ class SpecLib:
             return list(it.items)
         if isinstance(it, VBox) and it.kind == "iter":
             return it
+        if isinstance(it, VBox) and it.kind == "list" and it.val.pyval != []:
+            # a list iterator reads the live list: keep the box, not a snapshot of its content
+            b = VBox("iter", (it.val, VInt(0)), "iter")
+            b.live = it
+            return b
         s = self.seqval(it)
         if isinstance(s, VSeq):
             if s.pyval is not None and s.kind in ("str", "bytes"):
@@ -926,6 +931,16 @@ class SpecLib:
             ex.lemma("law slice-extend: s[a:j] + [s[j]] == s[a:j+1]", f)
             return VBool(True)
         B_["law_slice_extend"] = law_slice_extend
+        def law_nth_append(ex, a, kw):
+            """(s + [x])[j] == s[j] for 0 <= j < len(s)  and  (s + [x])[len(s)] == x"""
+            s_, x, j = self.seqval(a[0]), a[1], unwrap("int", a[2])
+            xt = unwrap(s_.ety, x)
+            cat = z3.Concat(s_.t, z3.Unit(xt))
+            f = z3.And(z3.Implies(z3.And(0 <= j, j < z3.Length(s_.t)), cat[j] == s_.t[j]), cat[z3.Length(s_.t)] == xt)
+            ex.lemma("law nth-append: (s + [x])[j] == s[j] for j < len(s), (s + [x])[len(s)] == x", f)
+            return VBool(True)
+        B_["law_nth_append"] = law_nth_append
+
         # mention(e): True.  Writing an application of a recursive spec function in contract text
         # instantiates its defining equation there (fuel 1); `mention` is the way to ask for that
         # instance without stating anything about the value.
